@@ -296,7 +296,7 @@ class OrderedSet(set):
 
 def order_fn(kind):
     keys = ["note", "gene", "zeta"]
-    vals = {"note": ["b", "a", "c"], "gene": ["g"], "zeta": ["z2", "z1"]}
+    vals = {"note": ["b", "B", "a"], "gene": ["g"], "zeta": ["z2", "Z2"]}  # (values differing only in letter case are distinct content with a defined order)
 
     def fn(pk, pv, ps):
         pk, pv, ps = concretize(pk, pv, ps)
@@ -316,9 +316,9 @@ def order_fn(kind):
                 return False
             # set iteration order (hash seed stand-in)
             sperm = list(itertools.permutations(range(3)))[ps]
-            s0 = {"k": {"b", "a", "c"}, "n": {"x": {"b", "a", "c"}}}
-            s1 = {"n": {"x": OrderedSet(["b", "a", "c"], sperm)}, "k": OrderedSet(["b", "a", "c"], sperm)}
-            if digest_object(s0, OrderedSet(["q", "p", "r"], sperm), z=s0) != digest_object(s1, {"p", "q", "r"}, z=s1):
+            s0 = {"k": {"b", "B", "a"}, "n": {"x": {"Ab1", "AB1", "c"}}}
+            s1 = {"n": {"x": OrderedSet(["Ab1", "AB1", "c"], sperm)}, "k": OrderedSet(["b", "B", "a"], sperm)}
+            if digest_object(s0, OrderedSet(["q", "Q", "r"], sperm), z=s0) != digest_object(s1, {"Q", "q", "r"}, z=s1):
                 return False
             b.qualifiers = {k: OrderedSet(v, [x for x in sperm if x < len(v)]) for k, v in b.qualifiers.items()}
             return b._export_qualifiers_to_list() == a._export_qualifiers_to_list() and b.to_dict() == a.to_dict()
